@@ -157,5 +157,53 @@ func lemmaCmpTrans(a, b, c Object) (ab, bc, ac int, eab, ebc, eac bool) {
 //@   property C01 C06 C07
 
 // Data invariant of object values held in interfaces (what constructors establish).
-//@ define wfMapObj(o) = implies(isType(o, *BigMap), o.(*BigMap) != nil) && implies(isType(o, SmallMap), 0 <= o.(SmallMap).len && o.(SmallMap).len <= 4)
+
+// ---- maps: finite maps kept as key-sorted sequences, small (inline, <= 4 pairs) or big (slice) ----
+// Cmp as used on map keys is assumed to be a total order returning -1/0/1 (proved for scalar keys by the C12
+// lemmas, with the recorded int/float exception; assumed for container keys).
+//@ axiom cmpOrder:: forallv(func(a Object) bool { return forallv(func(b Object) bool { return -1 <= Cmp(a, b) && Cmp(a, b) <= 1 && Cmp(a, b) == -Cmp(b, a) && forallv(func(c Object) bool { return implies(Cmp(a, b) <= 0 && Cmp(b, c) <= 0, Cmp(a, c) <= 0) && implies(Cmp(a, b) == 0, Cmp(a, c) == Cmp(b, c)) }) }) })
+
+//@ define smKey(m, i) = m.smallKV[i].Key
+//@ define smVal(m, i) = m.smallKV[i].Value
+//@ define smSorted(m) = 0 <= m.len && m.len <= 4 && forall(0, m.len - 1, func(i int) bool { return Cmp(smKey(m, i), smKey(m, i + 1)) == -1 })
+
+//@ func (SmallMap).get
+//@   uses cmpOrder
+//@   requires smSorted(m)
+//@   pure
+//@   trustframe
+//@   ensures  found:: implies(result1, 0 <= result2 && result2 < m.len && Cmp(smKey(m, result2), key) == 0 && result0 == smVal(m, result2))
+//@   ensures  notfound:: implies(!result1, 0 <= result2 && result2 <= m.len && forall(0, result2, func(i int) bool { return Cmp(smKey(m, i), key) == -1 }) && (result2 == m.len || Cmp(smKey(m, result2), key) == 1))
+//@   loop 1 invariant 0 <= rangeint_iter && rangeint_iter < m.len
+//@   loop 1 invariant forall(0, rangeint_iter, func(i int) bool { return Cmp(smKey(m, i), key) == -1 })
+//@   loop 1 decreases m.len - rangeint_iter
+//@   property C11
+
+// Abstract view of a Map value (SmallMap by value, or *BigMap).
+//@ define isMap(o) = isType(o, SmallMap) || isType(o, *BigMap)
+//@ define mpLen(o) = ite(isType(o, SmallMap), o.(SmallMap).len, len(o.(*BigMap).kv))
+//@ define mpKey(o, i) = ite(isType(o, SmallMap), o.(SmallMap).smallKV[i].Key, o.(*BigMap).kv[i].Key)
+//@ define mpVal(o, i) = ite(isType(o, SmallMap), o.(SmallMap).smallKV[i].Value, o.(*BigMap).kv[i].Value)
+//@ define mpSorted(o) = isMap(o) && 0 <= mpLen(o) && implies(isType(o, SmallMap), mpLen(o) <= 4) && implies(isType(o, *BigMap), o.(*BigMap) != nil) && forall(0, mpLen(o) - 1, func(i int) bool { return Cmp(mpKey(o, i), mpKey(o, i + 1)) == -1 })
+
+//@ func (SmallMap).Set
+//@   uses cmpOrder
+//@   requires smSorted(m)
+//@   modifies *
+//@   witness fnd = callresult1 after get#1
+//@   witness pos = callresult2 after get#1
+//@   ensures  where:: 0 <= pos && pos <= m.len && implies(fnd, pos < m.len && Cmp(smKey(m, pos), key) == 0)
+//@   ensures  update:: implies(fnd, mpLen(result) == m.len && forall(0, m.len, func(k int) bool { return mpKey(result, k) == smKey(m, k) && mpVal(result, k) == ite(k == pos, value, smVal(m, k)) }))
+//@   ensures  insertlen:: implies(!fnd, mpLen(result) == m.len + 1 && mpKey(result, pos) == key && mpVal(result, pos) == value)
+//@   ensures  insertlow:: implies(!fnd, forall(0, pos, func(k int) bool { return mpKey(result, k) == smKey(m, k) && mpVal(result, k) == smVal(m, k) }))
+//@   ensures  inserthigh:: implies(!fnd, forall(pos + 1, m.len + 1, func(k int) bool { return mpKey(result, k) == smKey(m, k - 1) && mpVal(result, k) == smVal(m, k - 1) }))
+//@   ensures  sorted:: mpSorted(result)
+//@   loop 1 invariant i == pos && pos <= j && j <= m0.len && m.len == m0.len + 1 && m0.len + 1 <= 4
+//@   loop 1 invariant forall(0, j + 1, func(k int) bool { return smKey(m, k) == smKey(m0, k) && smVal(m, k) == smVal(m0, k) })
+//@   loop 1 invariant forall(j + 1, m0.len + 1, func(k int) bool { return smKey(m, k) == smKey(m0, k - 1) && smVal(m, k) == smVal(m0, k - 1) })
+//@   loop 1 decreases j
+//@   property C11
+
+// Data invariant of object values held in interfaces (what the constructors establish).
+//@ define wfMapObj(o) = implies(isMap(o), mpSorted(o))
 //@ define wfObj(o) = plain(o) && wfArr(o) && wfMapObj(o)
